@@ -27,6 +27,7 @@ type c09Spec struct {
 	Alpha  []string `json:"alpha"`
 	D      int      `json:"d"`
 	Word   []string `json:"word,omitempty"`
+	After  bool     `json:"after,omitempty"` // the crop follows a complete winter wheat and is harvested early (before maturity)
 }
 
 // annual main crops of the property (permanent crops and ad-hoc catch-crop sets are not claimed)
@@ -63,6 +64,8 @@ func c09Specs(tier string, seed int) []c09Spec {
 				e := envs[(k+i)%len(envs)]
 				out = append(out, c09Spec{File: f, Yml: yml, Soil: e.soil, Root: e.root, NLevel: k % 3, CO2: 1 + (k/3)%3, Alpha: alpha, D: d})
 			}
+			// second crop of a rotation, harvested before it matures
+			out = append(out, c09Spec{File: f, Yml: yml, Soil: "loam12", Root: 12, NLevel: 1, CO2: 2, Alpha: alpha[:2], D: 2, After: true})
 			i++
 		}
 	}
@@ -73,7 +76,7 @@ func init() {
 	mc.Register(&mc.Check{
 		ID:        "C09",
 		Technique: "explicit-state bounded exploration of whole growing seasons on the real run loop: every word of 30-day weather blocks over the growth-critical part of the season for every shipped parameter set of an annual main crop (classic and YAML) x soil/root-limit x N supply x CO2 method; crop-state invariants on every day between sowing and harvest and phenology order from the crop result file",
-		Rule: "scenario = (crop file, format, soil with root limit, N level none/normal/excess, CO2 method 1-3) with all words over the block alphabet (benign seasonal weather elsewhere); every day from sowing to the day before harvest: organ masses, biomass, root mass, LAI, assimilate pool, crop N and N concentrations finite and >= 0, N-stress and transpiration ratio in [0,1], rooting depth <= profile depth and <= the soil's root limit scaled by the crop factor, stage number never decreasing; crop record: sowing <= emergence <= anthesis <= maturity <= harvest on the time axis (stages not reached are skipped); " +
+		Rule: "scenario = (crop file, format, soil with root limit, N level none/normal/excess, CO2 method 1-3) with all words over the block alphabet (benign seasonal weather elsewhere); every day from sowing to the day before harvest: organ masses, biomass, root mass, LAI, assimilate pool, crop N and N concentrations finite and >= 0, N-stress and transpiration ratio in [0,1], rooting depth <= profile depth and <= the soil's root limit scaled by the crop factor, stage number never decreasing; crop record: sowing <= emergence <= anthesis <= maturity <= harvest on the time axis, and each reported stage day equals the day on which the stage was seen to begin (0 when it never began); the crop is also run as second crop of a rotation and harvested early; " +
 			"state = (stage, biomass, LAI, rooting depth, N content); non-trivial = day on which a stress factor is below 1 or a bound is reached",
 		Assumptions: []string{"annual main crops: SM SOY SW WW WG WR TR OA WRA WRC K ZR LUP CCM OEL files as shipped (varieties included)", "the soil's root limit enters as round(limit x crop factor / 11), the rule of the model", "slack 1e-12"},
 		Bound: func(t string) string {
@@ -110,6 +113,15 @@ func c09Run(raw json.RawMessage, c *mc.Ctx) {
 		sow, har = "2001-10-05", "2002-07-25"
 	}
 	p.Rotation = append(p.Rotation[:1], proj.CropEntry{Crop: abbr, Sow: sow, Harvest: har, Rex: 50, Variety: variety}, proj.CropEntry{Crop: "WW", Sow: "2003-10-01", Harvest: "2004-07-30"})
+	if sp.After {
+		sow, har = "2003-04-15", "2003-07-15"
+		if c18Winter[abbr] {
+			sow, har = "2002-10-05", "2003-06-05"
+		}
+		p = e1Project(b, 720)
+		p.Soil.RootDepth = sp.Root
+		p.Rotation = append(p.Rotation[:1], proj.CropEntry{Crop: "WW", Sow: "2001-10-05", Harvest: "2002-07-25", Rex: 50}, proj.CropEntry{Crop: abbr, Sow: sow, Harvest: har, Rex: 50, Variety: variety}, proj.CropEntry{Crop: "WW", Sow: "2005-10-01", Harvest: "2006-07-30"})
+	}
 	p.Config["CO2method"] = fmt.Sprint(sp.CO2)
 	p.Config["CO2concentration"] = []string{"360", "550", "700"}[sp.CO2-1]
 	p.Config["NDeposition"] = []string{"0", "20", "60"}[sp.NLevel]
@@ -121,7 +133,7 @@ func c09Run(raw json.RawMessage, c *mc.Ctx) {
 		p.Fert = []proj.Fert{{Date: isoAdd(sow, 5), Amount: 300, Kind: "KAS"}, {Date: isoAdd(sow, 60), Amount: 300, Kind: "AHL"}}
 	}
 	wstart := proj.D(p.WeatherStart)
-	baseW := seasonWeather(wstart, 460)
+	baseW := seasonWeather(wstart, 760)
 	// the critical blocks: spring crops from 20 days after sowing; winter crops one autumn block, the others from 150 days before harvest
 	var blockStart []int
 	off := func(iso string) int { return int(proj.D(iso).Sub(wstart).Hours()/24 + 0.5) }
@@ -149,6 +161,7 @@ func c09Run(raw json.RawMessage, c *mc.Ctx) {
 		label := fmt.Sprintf("%s (%s) soil %s root limit %d N level %d CO2 method %d word=%v", sp.File, map[bool]string{true: "yml", false: "txt"}[sp.Yml], sp.Soil, sp.Root, sp.NLevel, sp.CO2, w)
 		lastStage := -1.0
 		nv := len(c.Viol)
+		stageDOY := map[int]int{} // stage number -> day of year on which the crop under test entered it
 		pr := &hermes.VerifProbe{DayEnd: func(g *hermes.GlobalVarsMain, zeit int, steps, wdt float64, cs *hermes.CropSharedVars, wv *hermes.WaterSharedVars) {
 			if zeit < sowZ || zeit >= harZ {
 				return
@@ -193,6 +206,9 @@ func c09Run(raw json.RawMessage, c *mc.Ctx) {
 			if float64(g.WURZ) > lim {
 				c.Violate("rooting-depth-beyond-soil-root-limit", fmt.Sprintf("%s: rooting depth %d layers, soil root limit %d (crop factor %g/11)", day, g.WURZ, g.WURZMAX, g.WUMAXPF), nil)
 			}
+			if st := int(g.INTWICK.Num); stageDOY[st] == 0 {
+				stageDOY[st] = g.TAG.Index + 1
+			}
 			c.Eval(1)
 			if g.INTWICK.Num < lastStage {
 				c.Violate("development-stage-decreased", fmt.Sprintf("%s: stage went from %g to %g", day, lastStage, g.INTWICK.Num), nil)
@@ -208,16 +224,28 @@ func c09Run(raw json.RawMessage, c *mc.Ctx) {
 			// phenology from the crop result file: Crop,HarvestYear,Yield,SowDOY,EmergDOY,AnthDOY,MatDOY,HarvestDOY
 			rec := strings.Split(strings.TrimSpace(res.File("C")), "\n")
 			c.Eval(1)
-			if len(rec) < 1 || len(strings.Split(rec[0], ",")) < 8 {
+			ri := 0
+			if sp.After {
+				ri = 1
+			}
+			if len(rec) <= ri || len(strings.Split(rec[ri], ",")) < 8 {
 				c.Violate("crop-record-missing", fmt.Sprintf("%s: crop file %q", label, res.File("C")), nil)
 			} else {
-				f := strings.Split(rec[0], ",")
+				f := strings.Split(rec[ri], ",")
 				var doy []int
 				for _, x := range f[3:8] {
 					v, _ := strconv.Atoi(strings.TrimSpace(x))
 					doy = append(doy, v)
 				}
 				names := []string{"sowing", "emergence", "anthesis", "maturity", "harvest"}
+				// the reported stage days are the days on which the probe saw the stage begin (0 = stage never reached;
+				// a stage entered on the harvest day itself is reported with the harvest day)
+				for si, stage := range map[int]int{1: 2, 2: 5, 3: 6} {
+					c.Eval(1)
+					if want := stageDOY[stage]; doy[si] != want && !(want == 0 && doy[si] == doy[4]) {
+						c.Violate("reported-stage-day-differs-from-development "+names[si], fmt.Sprintf("%s: crop record reports %s on day of year %d, the crop entered that stage on day %d (0 = never); record %q", label, names[si], doy[si], want, rec[ri]), nil)
+					}
+				}
 				ylen := 365
 				prev, prevName := 0, "sowing"
 				for i := 1; i < 5; i++ {
@@ -226,7 +254,7 @@ func c09Run(raw json.RawMessage, c *mc.Ctx) {
 					}
 					o := (doy[i] - doy[0] + ylen) % ylen
 					if o < prev {
-						c.Violate("phenology-out-of-order", fmt.Sprintf("%s: %s (day of year %d) reported before %s; record %q", label, names[i], doy[i], prevName, rec[0]), nil)
+						c.Violate("phenology-out-of-order", fmt.Sprintf("%s: %s (day of year %d) reported before %s; record %q", label, names[i], doy[i], prevName, rec[ri]), nil)
 						break
 					}
 					prev, prevName = o, names[i]
